@@ -36,12 +36,26 @@ def c20_1(ctx):
         raise AnalysisError("cbor_encode: %s" % ra.uninterpreted[0][1])
     f = Folder(ctx.repo, mod.name)
     tiles = []
-    for n in cfg.stmts(("stmt",)):
+    data_p = param_names(fn)[0]
+    cands = []
+    for n in cfg.stmts(("stmt", "return")):
         a = n.ast
         if isinstance(a, ast.Assign) and isinstance(a.targets[0], ast.Name) and a.targets[0].id == "prefix" and ra.reachable(n.id):
-            v = a.value
+            cands.append((n, a.value))
+        elif isinstance(a, ast.Return) and isinstance(a.value, ast.BinOp) and isinstance(a.value.op, ast.Add) and isinstance(a.value.right, ast.Name) \
+                and a.value.right.id == data_p and not isinstance(a.value.left, ast.Name) and ra.reachable(n.id):
+            cands.append((n, a.value.left))  # `return <prefix expression> + data`
+    for n, v in cands:
+        if True:
             s = ra.at(n.id, var)
-            # forms: bytes([0x40 + length]) | bytes([0x58, length]) | b"\x59" + length.to_bytes(2, "big")
+            # forms: bytes([0x40 + length]) | bytes([0x58, length]) | <tag byte> + length.to_bytes(w, "big"), the tag byte as a literal or bytes([K])
+            def tag_of(e):
+                if isinstance(e, ast.Constant) and isinstance(e.value, bytes) and len(e.value) == 1:
+                    return e.value[0]
+                if isinstance(e, ast.Call) and call_name(e) == "bytes" and e.args and isinstance(e.args[0], ast.List) and len(e.args[0].elts) == 1:
+                    k = f.fold(e.args[0].elts[0])
+                    return k if isinstance(k, int) else None
+                return None
             if isinstance(v, ast.Call) and call_name(v) == "bytes" and isinstance(v.args[0], ast.List):
                 el = v.args[0].elts
                 if len(el) == 1 and isinstance(el[0], ast.BinOp) and isinstance(el[0].op, ast.Add):
@@ -51,7 +65,7 @@ def c20_1(ctx):
                     tiles.append((s, ("tag", f.fold(el[0])), 1, n))
                 else:
                     raise AnalysisError("cbor_encode: prefix form not recognised: %s" % ast.unparse(v))
-            elif isinstance(v, ast.BinOp) and isinstance(v.op, ast.Add) and isinstance(v.left, ast.Constant) and isinstance(v.right, ast.Call) \
+            elif isinstance(v, ast.BinOp) and isinstance(v.op, ast.Add) and tag_of(v.left) is not None and isinstance(v.right, ast.Call) \
                     and call_name(v.right) in ("to_bytes", "int_to_big_endian", "int_to_little_endian"):
                 if call_name(v.right) == "to_bytes":
                     w = f.fold(v.right.args[0])
@@ -59,9 +73,9 @@ def c20_1(ctx):
                 else:  # normal form of x.to_bytes(w, order)
                     w = f.fold(v.right.args[1])
                     order = "big" if call_name(v.right) == "int_to_big_endian" else "little"
-                tiles.append((s, ("tag", v.left.value[0]), w, n))
+                tiles.append((s, ("tag", tag_of(v.left)), w, n))
                 if order != "big":
-                    out.append(ctx.bad(spec, "length after tag 0x%02x is written %s-endian; CBOR lengths are big-endian" % (v.left.value[0], order), v, mod, key="endian:%02x" % v.left.value[0]))
+                    out.append(ctx.bad(spec, "length after tag 0x%02x is written %s-endian; CBOR lengths are big-endian" % (tag_of(v.left), order), v, mod, key="endian:%02x" % tag_of(v.left)))
             else:
                 raise AnalysisError("cbor_encode: prefix form not recognised: %s" % ast.unparse(v))
     if not tiles:
@@ -108,11 +122,21 @@ def c20_1(ctx):
                 rtiles[("tag", s.witness())] = (s, 1)
             elif isinstance(v, ast.Call) and ("from_bytes" in ast.unparse(v.func) or call_name(v) in ("big_endian_to_int", "little_endian_to_int")):
                 inner = v.args[0]
-                w = Folder(ctx.repo, rmod.name).fold(inner.args[0]) if isinstance(inner, ast.Call) else None
-                rtiles[("tag", s.witness())] = (s, w)
+                warg = inner.args[0] if isinstance(inner, ast.Call) and inner.args else None
+                table = Folder(ctx.repo, rmod.name).fold(warg.value) if isinstance(warg, ast.Subscript) and isinstance(warg.slice, ast.Name) and warg.slice.id == bvar else None
+                if isinstance(table, dict):
+                    # table-driven width: one tile per tag byte that reaches this statement
+                    for tagv in sorted(table):
+                        if isinstance(tagv, int) and s.contains(tagv):
+                            rtiles[("tag", tagv)] = (ISet.point(tagv), table[tagv])
+                else:
+                    w = Folder(ctx.repo, rmod.name).fold(warg) if warg is not None else None
+                    rtiles[("tag", s.witness())] = (s, w)
     wmap = {tag: w for s, tag, w, n in tiles}
     rmap = {tag: w for tag, (s, w) in rtiles.items()}
-    if wmap == rmap:
+    if any(not isinstance(w, int) for w in list(wmap.values()) + list(rmap.values())):
+        out.append(ctx.err("bech32:cbor_encode↔cbor_decode", "a length width could not be read: writer %s, reader %s" % (wmap, rmap), fn, mod))
+    elif wmap == rmap:
         out.append(ctx.ok("bech32:cbor_encode↔cbor_decode", "writer and reader agree on tag → length width: %s" % {("0x%02x" % t[1]): w for t, w in sorted(wmap.items())}, fn, mod, key="agree"))
     else:
         out.append(ctx.bad("bech32:cbor_encode↔cbor_decode", "writer tag→width %s, reader %s" % (wmap, rmap), fn, mod, key="agree"))
